@@ -91,13 +91,13 @@ Advance(n, r0, r1) == n * T(r0) + ((T(r1) - T(r0)) * (n + 1)) \div 2
 AdvanceExact(n, r0, r1) == ((T(r1) - T(r0)) * (n + 1)) % 2 = 0
 NeededOf(lix, n, r0, r1) ==
   IF IsSinc
-  THEN Max(0, ((lix + Advance(n, r0, r1) + L * Q) \div Q) + 1)     \* floor(..) + 1
+  THEN Max(0, CeilDiv(lix + Advance(n, r0, r1) + L * Q, Q) + 1)    \* ceil(..) + 1
   ELSE Max(0, CeilDiv(lix + Advance(n, r0, r1) + L * Q, Q))         \* ceil(..) as usize
 
 NeededInit(c) ==
   LET lix == -(L \div 2) * Q
       adv == c.chunkMax * ((D(c.orig) * Q) \div P(c.orig))
-  IN IF IsSinc THEN Max(0, ((lix + adv + L * Q) \div Q) + 1)
+  IN IF IsSinc THEN Max(0, CeilDiv(lix + adv + L * Q, Q) + 1)
      ELSE CeilDiv(c.chunkMax * D(c.orig), P(c.orig)) + L \div 2     \* ceil(chunk/r) + L/2
 
 BufLenOf(c) ==
